@@ -298,7 +298,11 @@ class AbsInt:
                                 env[tt.id] = v[i] if isinstance(v, tuple) and i < len(v) else UNKNOWN
             elif isinstance(st, ast.AugAssign):
                 if isinstance(st.target, ast.Name):
-                    env[st.target.id] = UNKNOWN
+                    cur, rhs = env.get(st.target.id, UNKNOWN), self.ev(st.value, env)
+                    if isinstance(st.op, (ast.Add, ast.Sub)) and type(cur) is int and type(rhs) is int:
+                        env[st.target.id] = cur + rhs if isinstance(st.op, ast.Add) else cur - rhs  # counters
+                    else:
+                        env[st.target.id] = UNKNOWN
             elif isinstance(st, ast.Return):
                 self.returns.append(self.ev(st.value, env) if st.value is not None else None)
                 return None
